@@ -292,17 +292,6 @@ End PayFees.
 
 (* ---------- once per round: the rule lives in block validation ---------- *)
 
-(* miner.ValidateTransactions: a block with two built-in transactions of the same function name
-   is rejected.  Function names are tokens; [mf_fn_pay_fees] is "payFees". *)
-Definition mf_fn_pay_fees : Z := 1.
-
-Fixpoint mf_block_valid (builtin : Z -> bool) (seen : list Z) (txns : list Z) : bool :=
-  match txns with
-  | [] => true
-  | f :: tl => if builtin f then (if existsb (Z.eqb f) seen then false else mf_block_valid builtin (f :: seen) tl)
-               else mf_block_valid builtin seen tl
-  end.
-
 Lemma mf_block_valid_once : forall builtin txns seen, builtin mf_fn_pay_fees = true ->
   mf_block_valid builtin seen txns = true ->
   (count_occ Z.eq_dec txns mf_fn_pay_fees <= 1)%nat /\
@@ -347,4 +336,68 @@ Proof.
   - exact (H _ _ _ _ _ _ _ _ _ _ _ E1 res E2).
   - vm_compute in E1. inversion E1; subst. vm_compute in E2. discriminate.
   - vm_compute in E1. inversion E1; subst. vm_compute in E2. discriminate.
+Qed.
+
+(* a block accepted by validation pays at most once: its execution is either without effect on
+   the stake pools or exactly one successful payFees of the initial state *)
+Lemma mf_valid_block_pays_once : forall chargef sharef splitf gn bk live md sd builtin,
+  builtin mf_fn_pay_fees = true ->
+  forall txns seen st,
+  (forall fn, In (TxOther fn) txns -> fn <> mf_fn_pay_fees) ->
+  mf_block_valid builtin seen (map mf_txn_name txns) = true ->
+  (In mf_fn_pay_fees seen -> mf_run_block chargef sharef splitf gn bk live md sd st txns = st) /\
+  (mf_run_block chargef sharef splitf gn bk live md sd st txns = st \/
+   exists c r, In (TxPay c r) txns /\
+     mf_pay chargef sharef splitf gn bk live md sd st c r = SpOk (mf_run_block chargef sharef splitf gn bk live md sd st txns)).
+Proof.
+  intros chargef sharef splitf gn bk live md sd builtin Hb.
+  induction txns as [|t tl IH]; intros seen st Hoth Hv; simpl in *.
+  - split; [reflexivity|left; reflexivity].
+  - assert (Hoth' : forall fn, In (TxOther fn) tl -> fn <> mf_fn_pay_fees) by (intros fn Hin; apply Hoth; right; exact Hin).
+    destruct t as [c r|fn]; simpl in Hv.
+    + rewrite Hb in Hv. destruct (existsb (Z.eqb mf_fn_pay_fees) seen) eqn:Ex; [discriminate|].
+      assert (Hnotin : ~ In mf_fn_pay_fees seen).
+      { intros Hin. assert (existsb (Z.eqb mf_fn_pay_fees) seen = true) by (apply existsb_exists; exists mf_fn_pay_fees; split; [exact Hin|apply Z.eqb_refl]). congruence. }
+      split; [intros Hin; contradiction|].
+      assert (Hrest : forall st', mf_run_block chargef sharef splitf gn bk live md sd st' tl = st').
+      { intros st'. apply (IH (mf_fn_pay_fees :: seen) st' Hoth' Hv). left. reflexivity. }
+      destruct (mf_pay chargef sharef splitf gn bk live md sd st c r) as [st'| |] eqn:Ep; rewrite Hrest.
+      * right. exists c, r. split; [left; reflexivity|exact Ep].
+      * left. reflexivity.
+      * left. reflexivity.
+    + assert (Hne : fn <> mf_fn_pay_fees) by (apply Hoth; left; reflexivity).
+      destruct (builtin fn).
+      * destruct (existsb (Z.eqb fn) seen); [discriminate|].
+        destruct (IH (fn :: seen) st Hoth' Hv) as [H1 H2].
+        split; [intros Hin; apply H1; right; exact Hin|].
+        destruct H2 as [H2|(c & r & Hin & Hp)]; [left; exact H2|right; exists c, r; split; [right; exact Hin|exact Hp]].
+      * destruct (IH seen st Hoth' Hv) as [H1 H2]. split; [exact H1|].
+        destruct H2 as [H2|(c & r & Hin & Hp)]; [left; exact H2|right; exists c, r; split; [right; exact Hin|exact Hp]].
+Qed.
+
+(* C09 step inequality for payFees (liabilities never grow without backing): the miner contract's
+   liabilities touched by payFees are the unpaid stake-pool rewards L = mf_opt_total + mf_total
+   (no stake changes, sp_cred); payFees queues no transfer (wallet change 0); what it newly
+   accrues ("minted") is fees + block reward.  Hence L' - L <= (W' - W) + minted. *)
+Lemma mf_pay_fees_liability_backed :
+  forall chargef sharef splitf,
+  (forall a b c r, sharef a b c = Some r -> 0 <= r) ->
+  (forall r x c, chargef r x = Some c -> 0 <= c) ->
+  (forall r y c, splitf r y = Some c -> 0 <= c) ->
+  forall gn bk client in_round miner live sharders md sd fees br miner' sharders',
+  Forall (fun f => 0 <= f) (bk_fees bk) ->
+  mf_sum_fees (bk_fees bk) 0 = Some fees ->
+  f64_mult_coin (gn_block_reward gn) (gn_reward_rate gn) = Some br ->
+  (forall m, miner = Some m -> mf_node_ok (2 * (fees + br)) (gn_nmd gn) m md) ->
+  length sd = length sharders ->
+  Forall2 (mf_node_ok (2 * (fees + br)) (gn_nsd gn)) sharders sd ->
+  mf_pay_fees chargef sharef splitf gn bk client in_round miner live sharders md sd = SpOk (miner', sharders') ->
+  let L := mf_opt_total miner + mf_total sharders in
+  let L' := mf_opt_total miner' + mf_total sharders' in
+  let wallet_change := 0 in
+  L' - L <= wallet_change + (fees + br).
+Proof.
+  intros chargef sharef splitf H1 H2 H3 gn bk client in_round miner live sharders md sd fees br miner' sharders' HF Hf Hb Hm Hl Hs H.
+  destruct (mf_pay_fees_bounds chargef sharef splitf H1 H2 H3 gn bk client in_round miner live sharders md sd fees br HF Hf Hb Hm Hl Hs) as [_ Hok].
+  destruct (Hok _ _ H) as (mr & sr & mfe & sfe & _ & _ & _ & _ & Hbound & _). simpl. lia.
 Qed.
